@@ -1,4 +1,5 @@
 import SaoVerif.Generated.Facts
+import SaoVerif.Properties.C03Facts
 /-!
 # C01 — sources of nondeterminism, regenerated from the Go source on every run
 
@@ -31,6 +32,14 @@ theorem C01_map_ranges_are_the_known_ones :
         ("x/node/keeper/node.go", "Keeper.DoPenalty", "totalPenaltyMap"),
         ("x/sao/keeper/expired_shard.go", "Keeper.SetExpiredShardsBlock", "expiredShardsMap"),
         ("x/sao/keeper/msg_server_terminate.go", "msgServer.Terminate", "shardSet") ] := by decide
+
+/-- in-memory residue of non-consensus calls and of long-running processes (the last two clauses of C01):
+    apart from the package variable of finding F06 there is no place to keep it — `C03_process_state_is_known`
+    and `C03_keepers_hold_no_memory`, restated for this property -/
+theorem C01_no_process_memory :
+    Generated.pkgVars.length = 4 ∧
+    Generated.keeperFields.all (fun f => statelessFieldTypes.contains f.2.2 || plainFields.contains (f.1, f.2.1)) = true :=
+  ⟨by rw [C03_process_state_is_known]; rfl, C03_keepers_hold_no_memory⟩
 
 /-- the blockers the harness drives are all the blockers there are (`x/order`'s is empty) -/
 theorem C01_blockers_known :
